@@ -37,6 +37,10 @@ def _position(dtype, dx, cell, off):
 def case_lattice(dim, kernel, dtype, dx, base_cells):
     real_t = np.dtype(dtype).type
     shape = lagcomm.SHAPES[dim]
+    # construction history: a communicator of the OTHER kernel type and another spacing is built first
+    # in the same process (nothing of it may leak into the one under test)
+    other_dx = lagcomm.DXS[(lagcomm.DXS.index(dx) + 1) % len(lagcomm.DXS)] if dx in lagcomm.DXS else lagcomm.DXS[0]
+    lagcomm.Comm(dim, "peskin" if kernel == "cosine" else "cosine", real_t, other_dx)
     comm = lagcomm.Comm(dim, kernel, real_t, dx)
     n = comm.n
     eps = float(np.finfo(real_t).eps)
